@@ -30,6 +30,7 @@ VERSIONS = {"main": (bytes.fromhex("0488ade4"), bytes.fromhex("0488b21e")),
             "test": (bytes.fromhex("04358394"), bytes.fromhex("043587cf"))}
 ALPHA = b"123456789ABCDEFGHJKLMNPQRSTUVWXYZabcdefghijkmnopqrstuvwxyz"
 NA = {"st": "na", "v": []}
+ITEMS = ("xs", "xp", "pu", "pi", "ps", "pp", "kp", "kn", "kq")
 
 
 # ------------------------------------------------------------------------------ small helpers
@@ -133,6 +134,7 @@ def record_derive(seed, net, path, j=0, notation="prime", full=True):
         pu = rc(get_xpub, xs_cur) if xs_cur is not None else None
         nd["pu"] = item(pu) if pu is not None else dict(NA)
         pu_cur = pu["ok"] if pu is not None and "ok" in pu and isinstance(pu["ok"], (bytes, bytearray)) else None
+        nd["pi"] = item(rc(get_xpub, pu_cur)) if pu_cur is not None and full else dict(NA)
         if t == 0:
             ps = rc(derive_from_path, "M", pu_cur) if pu_cur is not None and full else None
         else:
@@ -170,9 +172,9 @@ def slim(e):
     if e["op"] == "derive":
         return {"id": e["id"], "op": "derive", "seed": e["seed"], "net": e["net"], "path": e["path"], "j": e["j"],
                 "master": it(e["master"]), "root": it(e["root"]),
-                "nodes": [{k: it(nd[k]) for k in ("xs", "xp", "pu", "ps", "pp", "kp", "kn", "kq")} for nd in e["nodes"]]}
+                "nodes": [{k: it(nd[k]) for k in ITEMS} for nd in e["nodes"]]}
     if e["op"] == "deser":
-        return {"id": e["id"], "op": "deser", "s": e["s"], "acc": e["acc"], "hasf": e["hasf"], "f": e["f"]}
+        return {"id": e["id"], "op": "deser", "s": e["s"], "acc": e["acc"], "hasf": e["hasf"], "f": e["f"], "pd": it(e.get("pd", NA))}
     if e["op"] == "ser":
         return {"id": e["id"], "op": "ser", "prv": e["prv"], "net": e["net"], "depth": e["depth"], "fp": e["fp"], "idx": e["idx"],
                 "cc": e["cc"], "key": e["key"], "out": it(e["out"]), "back": it(e["back"])}
@@ -192,7 +194,7 @@ def vector_events():
             assert row["path"] == "/".join(["m"] + comps[:t]), row["path"]
         nodes = []
         for row in chain:
-            nd = {k: dict(NA) for k in ("xs", "xp", "pu", "ps", "pp", "kp", "kn", "kq")}
+            nd = {k: dict(NA) for k in ITEMS}
             nd["xs"] = {"st": "ok", "v": list(row["xprv"].encode())}
             nd["pu"] = {"st": "ok", "v": list(row["xpub"].encode())}
             nodes.append(nd)
@@ -226,8 +228,25 @@ def judge(events, tag, bins=16, timeout=3000):
     verdicts, stats = {}, {"states": 0, "distinct": 0, "jvms": 0, "tlc_wall_s": 0.0}
 
     def one(ix):
-        return vlib.validate_events("Trace_Bip32", [slim(e) for e in packs[ix]], chunk=len(packs[ix]), jobs=1,
-                                    tag=f"{tag}{ix}", timeout=timeout)
+        # like vlib.validate_events, but with a bounded JVM heap (many JVMs share the machine)
+        os.makedirs(os.path.join(vlib.WORK, "traces"), exist_ok=True)
+        path = os.path.join(vlib.WORK, "traces", f"{tag}-{os.getpid()}-{ix}.json")
+        with open(path, "w") as fh:
+            json.dump([slim(e) for e in packs[ix]], fh, separators=(",", ":"))
+        try:
+            r = vlib.tlc("Trace_Bip32", "Trace_Bip32.cfg", native=True, env={"TRACE_FILE": path}, timeout=timeout,
+                         tag=f"{tag}-{os.getpid()}-{ix}", heap="1500m")
+        finally:
+            try:
+                os.remove(path)
+            except OSError:
+                pass
+        got = {v[1]: v[2] for v in r.prints if isinstance(v, list) and len(v) == 3 and v[0] == "V"}
+        missing = [e["id"] for e in packs[ix] if e["id"] not in got]
+        if missing or not r.completed:
+            raise vlib.MachineryFailure(f"Trace_Bip32: no verdict for {len(missing)} of {len(packs[ix])} events (rc={r.rc}, first missing "
+                                        f"id {missing[:1]}):\n{r.error_text()}")
+        return got, {"states": r.generated, "distinct": r.distinct, "jvms": 1, "tlc_wall_s": r.wall}
     with ThreadPoolExecutor(max_workers=16) as ex:
         for v, st in ex.map(one, range(nb)):
             verdicts.update(v)
@@ -278,7 +297,7 @@ def _stage_a_eval(ctx, res):
                 raise vlib.MachineryFailure(f"{cfg}: the pub-no-il-check deviation was not caught by Commute:\n" + r.error_text())
             continue
         if not r.completed:
-            raise vlib.MachineryFailure(f"stage A: TLC did not complete cleanly on {cfg}:\n{r.error_text()}")
+            raise vlib.MachineryFailure(f"stage A: TLC did not complete cleanly on {cfg} (rc={r.rc}):\n{r.error_text()[-1500:]}")
     for cfg, r in sorted(res.items()):
         if cfg.endswith("_dev.cfg") or cfg.endswith("_cov.cfg"):
             continue
@@ -317,7 +336,7 @@ def _gen_rows(ctx, nslices):
         cfg = os.path.join(vlib.WORK, f"Gen_Bip32-{k}.cfg")
         with open(cfg, "w") as fh:
             fh.write(_gen_cfg(ctx, k, nslices)[0])
-        r = vlib.tlc("Gen_Bip32", cfg, native=True, env={"OUT_FILE": out}, timeout=3000, tag=f"gb32-{os.getpid()}-{k}")
+        r = vlib.tlc("Gen_Bip32", cfg, native=True, env={"OUT_FILE": out}, timeout=3000, tag=f"gb32-{os.getpid()}-{k}", heap="1500m")
         if not r.completed or not os.path.exists(out):
             raise vlib.MachineryFailure("Gen_Bip32 failed:\n" + r.error_text())
         rows = json.load(open(out))
@@ -544,6 +563,12 @@ def _fields(v):
     return out
 
 
+def _dict_payload(d):
+    key = bytes.fromhex(d["key"])
+    return (bytes.fromhex(d["version"]) + d["depth"].to_bytes(1, "big") + bytes.fromhex(d["parent_key_fingerprint"])
+            + d["child_no"].to_bytes(4, "big") + bytes.fromhex(d["chaincode"]) + (b"\0" + key if len(key) == 32 else key))
+
+
 def record_deser(s, cls):
     import bits.bips.bip32 as b32
     r = vlib.run_call(b32.deserialized_extended_key, bytes(s))
@@ -556,6 +581,7 @@ def record_deser(s, cls):
         e["hasf"] = True
     else:
         e["exc"] = r["err"]
+    e["pd"] = item(vlib.run_call(b32.deserialized_extended_key, bytes(s), return_dict=True), _dict_payload)
     return e
 
 
@@ -745,7 +771,7 @@ def run(ctx):
     rnd = random.Random(ctx.seed * 104729 + 9)
     nslices = 8 if q else 16
     with ThreadPoolExecutor(max_workers=24) as ex:
-        fa = {cfg: ex.submit(vlib.tlc, mod, cfg, timeout=3000, **kw) for cfg, (mod, kw) in _stage_a_jobs(ctx).items()}
+        fa = {cfg: ex.submit(vlib.tlc, mod, cfg, timeout=3000, heap="3g", **kw) for cfg, (mod, kw) in _stage_a_jobs(ctx).items()}
         fvec = ex.submit(_vector_selftest, ctx)
         ev = _gen_c(ctx, rnd)                     # real code, recorded in worker processes while TLC runs stage A
         fgen = ex.submit(_gen_rows, ctx, nslices)
